@@ -38,6 +38,15 @@ func monitorC15(col *stats.Collector) func(h *Hist) {
 					}
 				}
 			}
+			// ... or after the node itself told the peer that the swap is cancelled (the transport took the message)
+			cancelSentAt := map[string]int{}
+			for _, m := range n.SentBy() {
+				if m.Type == mtCancel && !m.Failed {
+					if _, ok := cancelSentAt[swapIdOfPayload(m.Payload)]; !ok {
+						cancelSentAt[swapIdOfPayload(m.Payload)] = m.TraceIdx
+					}
+				}
+			}
 			for _, pc := range n.PayCalls {
 				for _, s := range n.Swaps() {
 					if s.Data == nil {
@@ -50,6 +59,11 @@ func monitorC15(col *stats.Collector) func(h *Hist) {
 					}
 					if at, ok := cancelledAt[s.SwapId.String()]; ok && pc.TraceIdx > at {
 						h.stop = col.Violation(h.T, "C15/payment-after-cancel:"+pc.Kind, "%s attempted a %s payment for swap %s after it was persisted as cancelled\n%s", n.Name, pc.Kind, s.SwapId.String()[:6], h.dump())
+						return
+					}
+					if at, ok := cancelSentAt[s.SwapId.String()]; ok && pc.TraceIdx > at {
+						h.class("pay-attempt-after-cancel-sent")
+						h.stop = col.Violation(h.T, "C15/payment-after-cancel-sent:"+pc.Kind, "%s attempted a %s payment for swap %s after it had sent cancel for that swap to the peer\n%s", n.Name, pc.Kind, s.SwapId.String()[:6], h.dump())
 						return
 					}
 				}
